@@ -190,6 +190,25 @@ Proof.
     apply memN_In in E. specialize (Hno c (in_or_app _ _ _ (or_intror E))). rewrite N.eqb_refl in Hno. discriminate.
 Qed.
 
+(* and conversely: _is_valid_uri refuses nothing that the IRIREF production allows (an over-strict table breaks this) *)
+Lemma table_within_grammar :
+  forallb (fun x => (x <=? 32) || memN x iri_forbidden) invalid_uri_chars = true.
+Proof. vm_compute. reflexivity. Qed.
+
+Lemma iri_ok_valid_uri : forall s, forallb iri_plain s = true -> valid_uri s = true.
+Proof.
+  intros s H. unfold valid_uri. apply forallb_forall. intros x Hx. apply negb_true_iff.
+  destruct (memN x s) eqn:E; [|reflexivity]. apply memN_In in E. rewrite forallb_forall in H. specialize (H x E).
+  pose proof table_within_grammar as T. rewrite forallb_forall in T. specialize (T x Hx).
+  unfold iri_plain in H. apply andb_true_iff in H. destruct H as [H1 H2].
+  apply negb_true_iff in H1. apply negb_true_iff in H2. rewrite H1, H2 in T. discriminate.
+Qed.
+
+Lemma wf_iri_parts : forall s, wf_iri s = true -> valid_uri s = true /\ has_scheme s = true.
+Proof.
+  intros s H. unfold wf_iri in H. apply andb_true_iff in H. destruct H as [H1 H2]. split; [apply iri_ok_valid_uri; exact H1|exact H2].
+Qed.
+
 (* ------------------------------------------------------------ BLANK_NODE_LABEL *)
 Lemma strip_dots_id : forall t, (last t 0 =? 46) = false -> strip_dots t = (t, []).
 Proof.
@@ -307,7 +326,7 @@ Lemma p_subject_n3 : forall t a rest, wf_node t = true -> term_kf t = 0 -> n3 t 
   p_subject (a ++ 32 :: rest) = Some (t, 32 :: rest).
 Proof.
   intros [s|s|lex k] a rest Hwf Hkf Hn; simpl in Hwf, Hkf, Hn; try discriminate.
-  - unfold wf_iri in Hwf. apply andb_true_iff in Hwf. destruct Hwf as [Hv Hs].
+  - destruct (wf_iri_parts _ Hwf) as [Hv Hs].
     unfold iri_n3 in Hn. rewrite Hv in Hn. inversion Hn; subst a. clear Hn.
     change ((60 :: s ++ [62]) ++ 32 :: rest) with (60 :: (s ++ [62]) ++ 32 :: rest).
     rewrite <- app_assoc. cbn [app].
@@ -324,7 +343,7 @@ Lemma p_predicate_n3 : forall s a rest, wf_iri s = true -> n3 (Iri s) = Some a -
   p_predicate (a ++ 32 :: rest) = Some (Iri s, 32 :: rest).
 Proof.
   intros s a rest Hwf Hn. simpl in Hn.
-  unfold wf_iri in Hwf. apply andb_true_iff in Hwf. destruct Hwf as [Hv Hs].
+  destruct (wf_iri_parts _ Hwf) as [Hv Hs].
   unfold iri_n3 in Hn. rewrite Hv in Hn. inversion Hn; subst a. clear Hn.
   change ((60 :: s ++ [62]) ++ 32 :: rest) with (60 :: (s ++ [62]) ++ 32 :: rest).
   rewrite <- app_assoc. cbn [app]. unfold p_predicate.
@@ -373,7 +392,7 @@ Proof.
       cbn [app p_lit_suffix]. rewrite N.eqb_refl.
       change (c :: l' ++ 32 :: rest) with ((c :: l') ++ 32 :: rest).
       rewrite p_langtag_w3c; [reflexivity|assumption|reflexivity|reflexivity].
-    + unfold wf_iri in Hwf. apply andb_true_iff in Hwf. destruct Hwf as [Hv Hs].
+    + destruct (wf_iri_parts _ Hwf) as [Hv Hs].
       destruct (has_scheme_nonempty d Hs) as [c [d' Ed]]. subst d.
       assert (Ea : a = quote_encode lex ++ [94; 94] ++ 60 :: (c :: d') ++ [62]) by (unfold quote_literal, iri_n3 in Ht; rewrite Hv in Ht; inversion Ht; reflexivity).
       rewrite Ea. rewrite Hstr.
@@ -401,7 +420,7 @@ Qed.
 Lemma n3_wf_node : forall t, wf_node t = true -> exists a, n3 t = Some a.
 Proof.
   intros [s|s|lex k] H; simpl in *; try discriminate; eauto.
-  unfold wf_iri in H. apply andb_true_iff in H. destruct H as [H _]. unfold iri_n3. rewrite H. eauto.
+  destruct (wf_iri_parts _ H) as [H0 _]. unfold iri_n3. rewrite H0. eauto.
 Qed.
 Lemma obj_text_wf : forall t, wf_object t = true -> exists a, obj_text t = Some a.
 Proof.
@@ -409,7 +428,7 @@ Proof.
   simpl. destruct k as [|l|d]; simpl in *.
   - eauto.
   - rewrite H. destruct l; eauto.
-  - unfold wf_iri in H. apply andb_true_iff in H. destruct H as [Hv Hs].
+  - destruct (wf_iri_parts _ H) as [Hv Hs].
     destruct (has_scheme_nonempty d Hs) as [c [d' E]]. subst d. unfold iri_n3. rewrite Hv. eauto.
 Qed.
 
@@ -616,54 +635,196 @@ Proof.
 Qed.
 
 (* ------------------------------------------------------------ the checker accepts the model *)
+(* an IRI with a character that IRIREF excludes is refused *)
+Lemma bad_iri_refused : forall s, bad_iri s = true -> iri_n3 s = None.
+Proof.
+  intros s H. unfold iri_n3. destruct (valid_uri s) eqn:E; [|reflexivity].
+  unfold bad_iri in H. rewrite (valid_uri_iri_ok s E) in H. discriminate.
+Qed.
+Lemma default_id_ok : forallb iri_plain default_graph_id = true.
+Proof. vm_compute. reflexivity. Qed.
+
+Lemma bad_row_refused : forall nq r, row_bad_iri nq r = true -> model_row nq r = None.
+Proof.
+  intros nq [[[s p] o] g] H. unfold row_bad_iri in H. cbn [fst snd] in H. unfold model_row. cbn [fst snd].
+  assert (Hn : forall t, term_bad_iri t = true -> (forall lex k, t <> Lit lex k) -> n3 t = None).
+  { intros [x|x|lex k] Hb Hl; cbn in *; [apply bad_iri_refused; exact Hb|discriminate|exfalso; eapply Hl; reflexivity]. }
+  assert (Hs : term_bad_iri s = true -> n3 s = None).
+  { destruct s as [x|x|lex k]; cbn; intro Hb; [apply bad_iri_refused; exact Hb|discriminate|reflexivity]. }
+  assert (Hp : term_bad_iri p = true -> n3 p = None).
+  { destruct p as [x|x|lex k]; cbn; intro Hb; [apply bad_iri_refused; exact Hb|discriminate|reflexivity]. }
+  assert (Ho : term_bad_iri o = true -> obj_text o = None).
+  { destruct o as [x|x|lex k]; cbn; intro Hb; [apply bad_iri_refused; exact Hb|discriminate|].
+    destruct k as [|l|d]; try discriminate. destruct (lit_exists (LDt d)); [|reflexivity].
+    destruct d as [|c d]; [discriminate|]. unfold quote_literal. rewrite (bad_iri_refused _ Hb). reflexivity. }
+  assert (Hg : match g with Iri x => bad_iri x | _ => false end = true -> graph_name g = None).
+  { destruct g as [x|x|lex k]; intro Hb; try discriminate.
+    unfold graph_name. destruct x as [|c x]; [discriminate|]. cbn [truthy andb].
+    destruct (is_default_id (Iri (c :: x))) eqn:Ed.
+    - exfalso. unfold is_default_id in Ed. apply andb_true_iff in Ed. destruct Ed as [_ Ed]. apply str_eqb_eq in Ed.
+      unfold bad_iri in Hb. rewrite Ed, default_id_ok in Hb. discriminate.
+    - cbn [negb]. cbn [n3]. apply bad_iri_refused. exact Hb. }
+  destruct nq.
+  - unfold nq_row. apply orb_true_iff in H. destruct H as [H|H].
+    + apply orb_true_iff in H. destruct H as [H|H].
+      * apply orb_true_iff in H. destruct H as [H|H].
+        -- rewrite (Hs H). destruct (graph_name g); reflexivity.
+        -- rewrite (Hp H). destruct (graph_name g); [destruct (n3 s); reflexivity|reflexivity].
+      * rewrite (Ho H). destruct (graph_name g); [destruct (n3 s); [destruct (n3 p); reflexivity|reflexivity]|reflexivity].
+    + cbn [andb] in H. rewrite (Hg H). reflexivity.
+  - unfold nt_row. rewrite andb_false_l, orb_false_r in H. apply orb_true_iff in H. destruct H as [H|H].
+    + apply orb_true_iff in H. destruct H as [H|H].
+      * rewrite (Hs H). reflexivity.
+      * rewrite (Hp H). destruct (n3 s); reflexivity.
+    + rewrite (Ho H). destruct (n3 s); [destruct (n3 p); reflexivity|reflexivity].
+Qed.
+
 Lemma rows_ok_model : forall nq rows,
   (forall r, In r rows -> row_kf nq r = 0) ->
   rows_ok nq rows (map (model_row nq) rows) = true.
 Proof.
   induction rows as [|r rows IH]; intro Hk; [reflexivity|].
   cbn [map rows_ok]. rewrite IH by (intros; apply Hk; right; assumption). rewrite andb_true_r.
-  unfold row_ok. destruct (wf_row nq r) eqn:Hwf; [|reflexivity]. cbn [negb orb].
-  destruct (row_valid nq r Hwf (Hk r (or_introl eq_refl))) as [l [Hl Hp]].
-  rewrite Hl, Hp. apply quad_eqb_refl.
+  unfold row_ok. apply andb_true_iff. split.
+  - destruct (row_bad_iri nq r) eqn:Hb; [|reflexivity]. cbn [negb orb]. rewrite (bad_row_refused nq r Hb). reflexivity.
+  - destruct (wf_row nq r) eqn:Hwf; [|reflexivity]. cbn [negb orb].
+    destruct (row_valid nq r Hwf (Hk r (or_introl eq_refl))) as [l [Hl Hp]].
+    rewrite Hl, Hp. apply quad_eqb_refl.
+Qed.
+
+(* ---- the well-formed rows of a mixed document *)
+Lemma in_suffixes : forall p s, In s (suffixes_after_nl (p ++ 10 :: s)).
+Proof.
+  induction p as [|c p IH]; intro s.
+  - cbn [app suffixes_after_nl]. rewrite N.eqb_refl. left. reflexivity.
+  - cbn [app suffixes_after_nl]. apply in_or_app. right. apply IH.
+Qed.
+Lemma in_line_starts : forall pre s, (pre = [] \/ exists p, pre = p ++ [10]) -> In s (line_starts (pre ++ s)).
+Proof.
+  intros pre s [H|[p H]]; subst pre; [left; reflexivity|]. right. rewrite <- app_assoc. apply in_suffixes.
+Qed.
+
+Lemma model_row_ends : forall nq r l, model_row nq r = Some l -> exists b, l = b ++ [10].
+Proof.
+  intros nq [[[s p] o] g] l H. unfold model_row in H. cbn [fst snd] in H. destruct nq.
+  - unfold nq_row in H. destruct (graph_name g) as [gn|]; [|discriminate]. destruct (n3 s) as [a|]; [|discriminate].
+    destruct (n3 p) as [b|]; [|discriminate]. destruct (obj_text o) as [c|]; [|discriminate]. inversion H.
+    exists (a ++ [32] ++ b ++ [32] ++ c ++ [32] ++ gn ++ [32; 46]). rewrite <- !app_assoc. reflexivity.
+  - unfold nt_row in H. destruct (n3 s) as [a|]; [|discriminate].
+    destruct (n3 p) as [b|]; [|discriminate]. destruct (obj_text o) as [c|]; [|discriminate]. inversion H.
+    exists (a ++ [32] ++ b ++ [32] ++ c ++ [32; 46]). rewrite <- !app_assoc. reflexivity.
+Qed.
+
+Lemma concat_ends : forall ts, (forall l, In l ts -> exists b, l = b ++ [10]) ->
+  concat ts = [] \/ exists p, concat ts = p ++ [10].
+Proof.
+  induction ts as [|l ts IH]; intro H; [left; reflexivity|]. right. cbn [concat].
+  destruct (H l (or_introl eq_refl)) as [b Hb]. destruct IH as [E|[p E]]; [intros; apply H; right; assumption| |].
+  - rewrite E, app_nil_r. eauto.
+  - rewrite E. exists (l ++ p). rewrite app_assoc. reflexivity.
+Qed.
+
+Lemma somes_texts : forall (rows : list (option str)) d, concat_opt rows = Some d ->
+  exists texts, rows = map Some texts /\ d = concat texts.
+Proof.
+  induction rows as [|o rows IH]; intros d H; [inversion H; exists []; split; reflexivity|].
+  cbn [concat_opt] in H. destruct o as [x|]; [|discriminate]. destruct (concat_opt rows) as [y|] eqn:E; [|discriminate].
+  inversion H; subst. destruct (IH y eq_refl) as [texts [H1 H2]]. exists (x :: texts). split; [cbn [map]; rewrite H1; reflexivity|].
+  cbn [concat]. rewrite H2. reflexivity.
+Qed.
+
+Lemma rows_in_doc_model : forall nq rs d,
+  (forall r, In r rs -> row_kf nq r = 0) ->
+  model_doc nq (map (model_row nq) rs) = Some d ->
+  forallb (fun r => negb (wf_row nq r) || row_in_doc nq r d) rs = true.
+Proof.
+  intros nq rs d Hk Hd. apply forallb_forall. intros r Hr.
+  destruct (wf_row nq r) eqn:Hwf; [|reflexivity]. cbn [negb orb].
+  unfold model_doc in Hd. destruct (concat_opt (map (model_row nq) rs)) as [d0|] eqn:Ec; [|discriminate].
+  destruct (somes_texts _ _ Ec) as [texts [Hm Hc]].
+  destruct (in_split r rs Hr) as [rs1 [rs2 Ers]]. subst rs.
+  destruct (model_row_shape nq r Hwf (Hk r Hr)) as [body [Hb [_ Hst]]].
+  rewrite map_app in Hm. cbn [map] in Hm.
+  assert (Hsplit : exists t1 t2, texts = t1 ++ (body ++ [10]) :: t2 /\ map Some t1 = map (model_row nq) rs1).
+  { clear -Hm Hb. revert texts Hm. induction rs1 as [|x rs1 IH]; intros texts Hm.
+    - cbn [app map] in Hm. destruct texts as [|t0 texts]; [discriminate|]. cbn [map] in Hm. inversion Hm.
+      rewrite Hb in H0. inversion H0; subst. exists [], texts. split; reflexivity.
+    - cbn [app map] in Hm. destruct texts as [|t0 texts]; [discriminate|]. cbn [map] in Hm. inversion Hm.
+      destruct (IH texts H1) as [t1 [t2 [E1 E2]]]. exists (t0 :: t1), t2. split; [rewrite E1; reflexivity|].
+      cbn [map]. rewrite E2, H0. reflexivity. }
+  destruct Hsplit as [t1 [t2 [Et Ht1]]].
+  assert (Hpre : concat t1 = [] \/ exists p, concat t1 = p ++ [10]).
+  { apply concat_ends. intros l Hl. assert (Hin : In (Some l) (map (model_row nq) rs1)) by (rewrite <- Ht1; apply in_map; exact Hl).
+    apply in_map_iff in Hin. destruct Hin as [x [Hx _]]. eapply model_row_ends; eauto. }
+  set (tail := concat t2 ++ (if nq then [10] else [])).
+  assert (Hdoc : d = concat t1 ++ (body ++ 10 :: tail)).
+  { unfold tail. destruct nq; inversion Hd; subst d d0 texts; rewrite concat_app; cbn [concat]; rewrite <- ?app_assoc; cbn [app]; rewrite ?app_nil_r; reflexivity. }
+  unfold row_in_doc. apply existsb_exists. exists (body ++ 10 :: tail). split.
+  - rewrite Hdoc. apply in_line_starts. exact Hpre.
+  - rewrite (Hst (10 :: tail)). rewrite quad_eqb_refl. reflexivity.
 Qed.
 
 Theorem spec_ok_model : forall c, kf c = 0 -> spec_ok c (model_obs c) = true.
 Proof.
   intros c Hk. unfold spec_ok, model_obs. cbn [fst snd].
   rewrite rows_ok_model by (apply kf_rows; exact Hk). cbn [andb].
-  unfold doc_ok. destruct (forallb (wf_row (c_nq c)) (c_rows c)) eqn:Hwf; [|reflexivity].
-  cbn [negb orb]. rewrite forallb_forall in Hwf.
-  destruct (doc_valid (c_nq c) (c_rows c)) as [d [Hd Hs]].
-  { intros r Hr. split; [apply Hwf; exact Hr|apply kf_rows; assumption]. }
-  rewrite Hd, Hs. apply qset_eqb_refl.
+  unfold doc_ok. apply andb_true_iff. split.
+  - destruct (forallb (wf_row (c_nq c)) (c_rows c)) eqn:Hwf; [|reflexivity].
+    cbn [negb orb]. rewrite forallb_forall in Hwf.
+    destruct (doc_valid (c_nq c) (c_rows c)) as [d [Hd Hs]].
+    { intros r Hr. split; [apply Hwf; exact Hr|apply kf_rows; assumption]. }
+    rewrite Hd, Hs. apply qset_eqb_refl.
+  - destruct (model_doc (c_nq c) (map (model_row (c_nq c)) (c_rows c))) as [d|] eqn:Hd; [|reflexivity].
+    apply rows_in_doc_model; [apply kf_rows; exact Hk|exact Hd].
 Qed.
 
 (* ------------------------------------------------------------ what the checker's booleans mean *)
 Lemma row_ok_reading : forall nq r o,
   row_ok nq r o = true <->
+  (row_bad_iri nq r = true -> o = None) /\
   (wf_row nq r = true -> exists l, o = Some l /\ strict_parse nq l = Some (expected nq r)).
 Proof.
-  intros nq r o. unfold row_ok. destruct (wf_row nq r); cbn [negb orb]; [|split; [discriminate 2|reflexivity]].
-  split.
-  - intros H _. destruct o as [l|]; [|discriminate]. exists l. split; [reflexivity|].
-    destruct (strict_parse nq l) as [q|] eqn:Es; [|discriminate]. apply quad_eqb_eq in H. congruence.
-  - intro H. destruct (H eq_refl) as [l [E P]]. subst o. rewrite P. apply quad_eqb_refl.
+  intros nq r o. unfold row_ok. rewrite andb_true_iff.
+  assert (A : (negb (row_bad_iri nq r) || match o with None => true | Some _ => false end) = true <-> (row_bad_iri nq r = true -> o = None)).
+  { destruct (row_bad_iri nq r); cbn [negb orb]; [|split; [discriminate 2|reflexivity]].
+    destruct o; split; intro H; try reflexivity; try discriminate. specialize (H eq_refl). discriminate. }
+  assert (B : (negb (wf_row nq r) || match o with
+                | Some l => match strict_parse nq l with Some q => quad_eqb q (expected nq r) | None => false end
+                | None => false end) = true <->
+              (wf_row nq r = true -> exists l, o = Some l /\ strict_parse nq l = Some (expected nq r))).
+  { destruct (wf_row nq r); cbn [negb orb]; [|split; [discriminate 2|reflexivity]].
+    split.
+    - intros H _. destruct o as [l|]; [|discriminate]. exists l. split; [reflexivity|].
+      destruct (strict_parse nq l) as [q|] eqn:Es; [|discriminate]. apply quad_eqb_eq in H. congruence.
+    - intro H. destruct (H eq_refl) as [l [E P]]. subst o. rewrite P. apply quad_eqb_refl. }
+  rewrite A, B. reflexivity.
 Qed.
 
 Lemma doc_ok_reading : forall nq rs d,
   doc_ok nq rs d = true <->
   ((forall r, In r rs -> wf_row nq r = true) ->
    exists t qs, d = Some t /\ strict_doc nq t = Some qs /\
-                forall q, In q qs <-> In q (map (expected nq) rs)).
+                forall q, In q qs <-> In q (map (expected nq) rs))
+  /\ (forall t r, d = Some t -> In r rs -> wf_row nq r = true -> row_in_doc nq r t = true).
 Proof.
-  intros nq rs d. unfold doc_ok.
-  destruct (forallb (wf_row nq) rs) eqn:Hwf; cbn [negb orb].
-  - rewrite forallb_forall in Hwf. split.
-    + intros H _. destruct d as [t|]; [|discriminate]. destruct (strict_doc nq t) as [qs|] eqn:Es; [|discriminate].
-      exists t, qs. split; [reflexivity|split; [exact Es|]]. apply qset_eqb_iff. exact H.
-    + intro H. destruct (H Hwf) as [t [qs [E [P Q]]]]. subst d. rewrite P. apply qset_eqb_iff. exact Q.
-  - split; [|reflexivity]. intros _ H. exfalso.
-    assert (forallb (wf_row nq) rs = true) by (apply forallb_forall; exact H). congruence.
+  intros nq rs d. unfold doc_ok. rewrite andb_true_iff.
+  assert (A : (negb (forallb (wf_row nq) rs) ||
+               match d with
+               | Some t => match strict_doc nq t with Some qs => qset_eqb qs (map (expected nq) rs) | None => false end
+               | None => false end) = true <->
+              ((forall r, In r rs -> wf_row nq r = true) ->
+               exists t qs, d = Some t /\ strict_doc nq t = Some qs /\ forall q, In q qs <-> In q (map (expected nq) rs))).
+  { destruct (forallb (wf_row nq) rs) eqn:Hwf; cbn [negb orb].
+    - rewrite forallb_forall in Hwf. split.
+      + intros H _. destruct d as [t|]; [|discriminate]. destruct (strict_doc nq t) as [qs|] eqn:Es; [|discriminate].
+        exists t, qs. split; [reflexivity|split; [exact Es|]]. apply qset_eqb_iff. exact H.
+      + intro H. destruct (H Hwf) as [t [qs [E [P Q]]]]. subst d. rewrite P. apply qset_eqb_iff. exact Q.
+    - split; [|reflexivity]. intros _ H. exfalso.
+      assert (forallb (wf_row nq) rs = true) by (apply forallb_forall; exact H). congruence. }
+  rewrite A. split; intros [H1 H2]; (split; [exact H1|]).
+  - intros t r Ed Hr Hw. subst d. rewrite forallb_forall in H2. specialize (H2 r Hr). rewrite Hw in H2. exact H2.
+  - destruct d as [t|]; [|reflexivity]. apply forallb_forall. intros r Hr. destruct (wf_row nq r) eqn:Hw; [|reflexivity].
+    apply (H2 t r eq_refl Hr Hw).
 Qed.
 
 Lemma rows_ok_reading : forall nq rs os,
